@@ -18,6 +18,8 @@ vars == <<order, cst, trk, hist>>
 \* "ids"   : identity and ordering (C09): every operation, colliding / ill-formed aliases and identifiers, trivial definitions
 \* "deps"  : incremental analysis (C07): definitions that create, break and cycle dependencies between X1, D1, D2
 \* "kinds" : incremental analysis over every constituent kind (functions, calls, axioms, structures, ill-typed, unparsable, dangling)
+\* "texts" : resolved terms and definition texts (C07, last clause): X1, D1, D2 are created by script, then chains of references
+\*           between terms and texts are built, re-pointed, renamed and broken
 \* "names" : renaming (C08): aliases that are prefixes of each other, chains and mentions in definitions, conventions, references
 OpSet == CASE Preset = "ids" -> {"Emplace", "InsertCopy", "Erase", "SetAlias", "MoveBefore", "ResetAliases", "Track", "StopTracking", "SetExpression", "SaveLoad"}
            [] Preset = "dups" -> {"Emplace", "Track", "DeleteDuplicates", "Erase", "SetAlias", "SetConvention"}
@@ -25,6 +27,7 @@ OpSet == CASE Preset = "ids" -> {"Emplace", "InsertCopy", "Erase", "SetAlias", "
            [] Preset = "kinds" -> {"Emplace", "SetExpression", "Erase", "SetAlias"}
            [] Preset = "names" -> {"Emplace", "SetAlias", "ResetAliases", "SetConvention", "SetTerm", "SetText", "InsertCopy", "Erase"}
            [] Preset = "ops" -> {"Emplace", "Erase"}
+           [] Preset = "texts" -> {"Emplace", "SetTerm", "SetText", "SetAlias", "Erase"}
 UidPool == 1..(MaxCst + 1)
 EmplaceKinds == CASE Preset = "ids" -> {"base", "constant", "structured", "term", "axiom"}
                   [] Preset = "deps" -> {"base", "term"}
@@ -32,6 +35,7 @@ EmplaceKinds == CASE Preset = "ids" -> {"base", "constant", "structured", "term"
                   [] Preset = "kinds" -> {"base", "structured", "term", "function", "axiom"}
                   [] Preset = "names" -> {"base", "term"}
                   [] Preset = "ops" -> {"base", "term", "axiom"}
+                  [] Preset = "texts" -> {"base", "term"}
 \* definitions offered when a constituent of kind k is created
 KindDefs(k) == CASE Preset = "ids" -> {1, 2}
                  [] Preset = "dups" -> IF k = "base" THEN {1} ELSE {2, 5}
@@ -39,10 +43,11 @@ KindDefs(k) == CASE Preset = "ids" -> {1, 2}
                  [] Preset = "kinds" -> (CASE k = "base" -> {1} [] k = "structured" -> {4, 18} [] k = "term" -> {2, 5, 9, 10, 11, 13, 16, 22, 23, 24}
                                           [] k = "function" -> {12} [] k = "axiom" -> {14, 15})
                  [] Preset = "names" -> IF k = "base" THEN {1} ELSE {5, 16, 19}
+                 [] Preset = "texts" -> IF k = "base" THEN {1} ELSE {2}
                  [] Preset = "ops" -> (CASE k = "base" -> {1} [] k = "term" -> {2, 5, 6, 10, 20, 21} [] k = "axiom" -> {15})
 \* definitions offered to SetExpression
-EditDefs == CASE Preset = "ids" -> {1, 2} [] Preset = "dups" -> {} [] Preset = "deps" -> {2, 5, 6, 7, 8, 17} [] Preset = "kinds" -> {1, 2, 5, 10, 12, 13, 14, 16, 22} [] Preset = "names" -> {} [] Preset = "ops" -> {}
-AliasPool == CASE Preset = "ids" -> {"X1", "X2", "D1", "Q7"} [] Preset = "dups" -> {"D3"} [] Preset = "kinds" -> {"D1", "D2", "X2"} [] Preset = "names" -> {"X1", "X11", "X2", "D1", "D11", "D2"} [] OTHER -> {}
+EditDefs == CASE Preset = "ids" -> {1, 2} [] Preset = "dups" -> {} [] Preset = "deps" -> {2, 5, 6, 7, 8, 17} [] Preset = "kinds" -> {1, 2, 5, 10, 12, 13, 14, 16, 22} [] Preset = "names" -> {} [] Preset = "ops" -> {} [] Preset = "texts" -> {}
+AliasPool == CASE Preset = "ids" -> {"X1", "X2", "D1", "Q7"} [] Preset = "dups" -> {"D3"} [] Preset = "kinds" -> {"D1", "D2", "X2"} [] Preset = "names" -> {"X1", "X11", "X2", "D1", "D11", "D2"} [] Preset = "texts" -> {"X2", "D3"} [] OTHER -> {}
 RecUids == {1, 2}
 RecAliases == IF Preset = "names" THEN {"X1", "D1", "X11"} ELSE {"X1", "D1", "Q7"}
 RecDefs == {1, 8}
@@ -79,6 +84,11 @@ Words == <<"note", "X1", "D1">>                       \* conventions: plain word
 \* a plain "word" may itself be reference syntax the model does not interpret: a collaboration reference stays as it is
 AtomsPool == {<<>>, <<[r |-> TRUE, s |-> "X1"], [r |-> FALSE, s |-> "X1"], [r |-> TRUE, s |-> "X11"], [r |-> TRUE, s |-> "D1"]>>,
               <<[r |-> TRUE, s |-> "D2"]>>, <<[r |-> TRUE, s |-> "X1"], [r |-> FALSE, s |-> "@{-1|lonely}"], [r |-> TRUE, s |-> "D1"]>>}
+TermPoolT == {<<[r |-> FALSE, s |-> "word"]>>, <<[r |-> TRUE, s |-> "X1"]>>, <<[r |-> TRUE, s |-> "D1"], [r |-> FALSE, s |-> "of"]>>}
+TextPoolT == {<<[r |-> TRUE, s |-> "D1"]>>, <<[r |-> FALSE, s |-> "see"], [r |-> TRUE, s |-> "D2"], [r |-> TRUE, s |-> "X1"]>>}
+\* the scripted prefix of "texts": base set, term, term (then no further Emplace)
+Scripted(k) == Preset # "texts" \/ (Len(hist) < 3 /\ k = (IF Len(hist) = 0 THEN "base" ELSE "term"))
+Free == Preset # "texts" \/ Len(hist) >= 3
 ConvPool == {<<>>, <<"X1", "note", "D1", "X11", "x1">>}
 RecPool == {[uid |-> u, alias |-> a, kind |-> k, def |-> DefPool[d], conv |-> <<"X1">>, term |-> <<[r |-> TRUE, s |-> a]>>, text |-> <<>>] :
                u \in RecUids, a \in RecAliases, k \in {"base", "term"}, d \in RecDefs}
@@ -94,19 +104,19 @@ Step(A, rec) == A /\ hist' = Append(hist, rec)
 Next ==
   /\ Len(hist) < MaxLen
   /\ \/ /\ "Emplace" \in OpSet /\ CanGrow
-        /\ \E k \in EmplaceKinds : \E i \in KindDefs(k) :
+        /\ \E k \in {x \in EmplaceKinds : Scripted(x)} : \E i \in KindDefs(k) :
               Step(Emplace(k, DefPool[i], Fresh), [Op("Emplace") EXCEPT !.k = k, !.d = Toks(DefPool[i]), !.hasdef = (DefPool[i] # NoDef), !.fresh = Fresh])
      \/ /\ "InsertCopy" \in OpSet /\ CanGrow
         /\ \E r \in RecPool : \E f \in {Fresh2(r.uid)} :
               Step(InsertCopy(r, f), [Op("InsertCopy") EXCEPT !.fresh = f,
                      !.rec = <<[uid |-> r.uid, alias |-> r.alias, kind |-> r.kind, d |-> Toks(r.def), conv |-> r.conv, term |-> r.term, text |-> r.text]>>])
-     \/ /\ "Erase" \in OpSet /\ \E u \in (IF Preset = "ops" THEN Ids ELSE UidPool) : Step(Erase(u), [Op("Erase") EXCEPT !.u = u])
-     \/ /\ "SetAlias" \in OpSet /\ \E u \in Ids, a \in AliasPool, b \in BOOLEAN : Step(SetAlias(u, a, b), [Op("SetAlias") EXCEPT !.u = u, !.a = a, !.b = b])
+     \/ /\ "Erase" \in OpSet /\ Free /\ \E u \in (IF Preset = "ops" THEN Ids ELSE UidPool) : Step(Erase(u), [Op("Erase") EXCEPT !.u = u])
+     \/ /\ "SetAlias" \in OpSet /\ Free /\ \E u \in Ids, a \in AliasPool, b \in (IF Preset = "texts" THEN {TRUE} ELSE BOOLEAN) : Step(SetAlias(u, a, b), [Op("SetAlias") EXCEPT !.u = u, !.a = a, !.b = b])
      \/ /\ "SetExpression" \in OpSet /\ \E u \in Ids, i \in EditDefs :
               Step(SetExpression(u, DefPool[i]), [Op("SetExpression") EXCEPT !.u = u, !.d = Toks(DefPool[i]), !.hasdef = (DefPool[i] # NoDef)])
      \/ /\ "SetConvention" \in OpSet /\ \E u \in Ids, q \in ConvPool : Step(SetConvention(u, q), [Op("SetConvention") EXCEPT !.u = u, !.w = q])
-     \/ /\ "SetTerm" \in OpSet /\ \E u \in Ids, q \in AtomsPool : Step(SetTerm(u, q), [Op("SetTerm") EXCEPT !.u = u, !.q = q])
-     \/ /\ "SetText" \in OpSet /\ \E u \in Ids, q \in AtomsPool : Step(SetText(u, q), [Op("SetText") EXCEPT !.u = u, !.q = q])
+     \/ /\ "SetTerm" \in OpSet /\ Free /\ \E u \in Ids, q \in (IF Preset = "texts" THEN TermPoolT ELSE AtomsPool) : Step(SetTerm(u, q), [Op("SetTerm") EXCEPT !.u = u, !.q = q])
+     \/ /\ "SetText" \in OpSet /\ Free /\ \E u \in Ids, q \in (IF Preset = "texts" THEN TextPoolT ELSE AtomsPool) : Step(SetText(u, q), [Op("SetText") EXCEPT !.u = u, !.q = q])
      \/ /\ "MoveBefore" \in OpSet /\ \E u \in Ids, p \in 1..(Len(order) + 1) : Step(MoveBefore(u, p), [Op("MoveBefore") EXCEPT !.u = u, !.p = p])
      \/ /\ "ResetAliases" \in OpSet /\ Ids # {} /\ Step(ResetAliases, Op("ResetAliases"))
      \/ /\ "Track" \in OpSet /\ \E u \in Ids, b \in BOOLEAN : Step(Track(u, b), [Op("Track") EXCEPT !.u = u, !.b = b])
